@@ -20,6 +20,10 @@ func main() {
 		traceMain(os.Args[2:])
 	case "reader":
 		readerMain(os.Args[2:])
+	case "serve":
+		serveMain(os.Args[2:])
+	case "tcp":
+		tcpMain(os.Args[2:])
 	default:
 		fmt.Fprintln(os.Stderr, "unknown mode", os.Args[1])
 		os.Exit(2)
